@@ -23,7 +23,7 @@ RULE = (
     "test points (affine constraints with integer coefficients, bounds at integers, so no tolerance): "
     "configured-feasible(x) => handed-feasible(x) => feasible w.r.t. bounds, non-linear constraints and every linear row that "
     "does not touch a fixed variable (plus, per constraint row and bound, points 2^-12 inside/outside/on the bound and in the "
-    "middle of two-sided bands, incl. a band that is narrow relative to its magnitude); each dict jac == exact difference quotient of its own fun; max_iterations reaches the "
+    "middle of two-sided bands, incl. a band that is narrow relative to its magnitude); each dict jac == exact difference quotient of its own fun; with parallel evaluation the vectorized constraint object handed to differential_evolution returns, for a block of members, column by column the values of the single members; max_iterations reaches the "
     "back-end for every options form; NotImplementedError is an acceptable answer, silently handing a non-equivalent "
     "problem is not. Every accepted configuration is non-trivial; rejected ones are counted trivial."
 )
@@ -118,6 +118,8 @@ def build_config(case: dict[str, Any]) -> dict[str, Any]:
                 optimizer["options"]["popsize"] = 5
     if case["method"] in ("slsqp", "l-bfgs-b", "tnc", "cg", "bfgs", "newton-cg"):
         optimizer["tolerance"] = 1e-4
+    if case.get("parallel"):
+        optimizer["parallel"] = True
     config["optimizer"] = optimizer
     return config
 
@@ -315,6 +317,22 @@ def judge(case: dict[str, Any]) -> Judgement:
                 j.fail("constraint-jacobian-not-derivative-of-its-value", index=index, observed=jac, expected=exact, nl=case["nl"], lin=case["lin"])
         if isinstance(con, NonlinearConstraint) and con.jac is not None and callable(con.jac) and method != "differential_evolution":
             pass
+    # ---------------------------------------------------------------- vectorized constraint objects
+    if is_de and handed.get("vectorized"):
+        # SciPy hands a (d, S) block of S population members to a vectorized constraint and expects (M, S) back: column s
+        # must hold the constraint values of member s
+        members = [np.asarray(x, dtype=float) for x in lattice(d)[:5]]
+        block = np.stack(members, axis=1)
+        for index, con in enumerate(constraints):
+            if isinstance(con, NonlinearConstraint):
+                try:
+                    got = np.asarray(con.fun(block.copy()), dtype=float)
+                    single = np.stack([np.asarray(con.fun(x.copy()), dtype=float).reshape(-1) for x in members], axis=1)
+                except Exception as exc:  # noqa: BLE001
+                    j.fail(f"vectorized-constraint-raised:{type(exc).__name__}", message=str(exc)[:200])
+                    continue
+                if got.shape != single.shape or not np.array_equal(got, single):
+                    j.fail("vectorized-constraint-values-not-per-member", index=index, observed=got, expected=single, nl=case["nl"])
     if method == "cobyla" and any(isinstance(c, dict) and "jac" in c for c in constraints):
         pass  # harmless
     # ---------------------------------------------------------------- iteration limit, tolerance
@@ -381,6 +399,10 @@ def run_shard(shard: dict[str, Any]) -> core.ShardResult:
                                     "options": opts, "maxiter": maxiter}
                             j = judge(case)
                             rec.add((method, nl, lin, mask, vb, opts, maxiter), case, j)
+                            if method == "differential_evolution" and opts == "none" and maxiter:
+                                # the population method with parallel evaluation: vectorized callables are handed over
+                                case = {**case, "parallel": True}
+                                rec.add((method, nl, lin, mask, vb, opts, maxiter, "parallel"), case, judge(case))
     return rec.finish()
 
 
